@@ -39,8 +39,9 @@ fn main() {
             let choices: Vec<u32> = v["choices"].as_array().unwrap().iter().map(|x| x.as_u64().unwrap() as u32).collect();
             let chk = props::sim_check(&id, &tier, seed).expect("no sim check for property");
             let sc = chk.scenarios.iter().find(|s| s.name == name).expect("scenario not found in this tier");
-            let r1 = explore::run_single(sc, &*chk.oracle, &choices).expect("execution failed");
-            let r2 = explore::run_single(sc, &*chk.oracle, &choices).expect("execution failed");
+            let mut rs = explore::run_n(sc, &*chk.oracle, &choices, 2);
+            let r2 = rs.pop().flatten().expect("execution failed");
+            let r1 = rs.pop().flatten().expect("execution failed");
             println!("scenario: {}", name);
             println!("choices: {:?}", choices);
             println!("{}", r1.trace.clone().unwrap_or_default());
